@@ -44,9 +44,8 @@ ASSUMPTIONS = [
     "buffers are observed through their sizes only: an opaque op receives the shape of a memref operand, not its identity or contents "
     "(hoisting an alloc makes all iterations share one buffer; contents of a fresh buffer are undefined)",
     "MoveMemrefDims: the size resolution is modelled (move_dim_value) and compared with the replacement the real pattern "
-    "chose on every run (resolve_at); its IR surgery is covered by L2 only (ill-formed result = violation)",
-    "memref.load / memref.store are ordered events without heap contents (the loaded value is a free name): any change in the "
-    "number or order of load/store events is flagged, a wrong loaded value as such is not observable",
+    "chose on every run (resolve_at); its IR surgery is the rule RMoveDim of the model (guarded: no affine.min, replacement dominates the loop), compared structurally by L1 on every real rewrite outside the affine.min case",
+    "memref.store is an event and a heap entry, memref.load returns the value last stored at the address (buffers identified by the SSA name of their alloc / an identity per function argument; subviews share the buffer of their source, offsets and initial contents are not modelled).",
     "a pass that raises, or whose result does not verify / leaves the abstract IR, is a violation - except the deliberate "
     "RuntimeError('no constant value found') on the class prog_has_refused_min (Model/C17MoveDim.v), modelled as 'no rewrite'",
 ]
@@ -75,8 +74,9 @@ class Names:
         return self.ids[k][0]
 
     def eff(self, key) -> int:
+        # id 0 is reserved for memref.store (STORE in Model/C17Loop.v: the event is also the heap entry)
         if key not in self.effs:
-            self.effs[key] = len(self.effs)
+            self.effs[key] = len(self.effs) + 1
         return self.effs[key]
 
 
@@ -149,12 +149,12 @@ def conv_block(block, nm: Names) -> list[str]:
                     sizes.append(f"DStatic {zlit(s)}")
             out.append(f"Def {nat(nm.v(op.result))} (PSubview {nat(nm.v(op.source))} {coqlist(sizes)})")
         elif isinstance(op, memref.LoadOp):
-            # a read of memory: an (ordered) event of the trace; the loaded value is a free name.  Treating reads
-            # as events over-approximates "a load may not move across a store to the same location".
-            r = nm.v(op.results[0])
-            if r not in nm.free:
-                nm.free.append(r)
-            out.append(f"Eff {nat(nm.eff(('memref.load',)))} {coqlist(nat(nm.v(a)) for a in op.operands)}")
+            # the value last stored at that address (heap semantics of Model/C17Loop.v)
+            ops_ = list(op.operands)
+            out.append(f"Def {nat(nm.v(op.results[0]))} (PLoad {nat(nm.v(ops_[0]))} {coqlist(nat(nm.v(a)) for a in ops_[1:])})")
+        elif isinstance(op, memref.StoreOp):
+            # operands: value, memref, indices
+            out.append(f"Eff 0 {coqlist(nat(nm.v(a)) for a in op.operands)}")
         elif isinstance(op, scf.ForOp):
             if len(op.iter_args) != 0:
                 raise Unsupported("iter_args")
@@ -239,6 +239,7 @@ class Gen:
         mems = [("%m0", "memref<?x?xi8>", ["?", "?"])] if self.family == "reuse" else []
         if self.family == "reuse":
             self.emit(2, "%g0 = memref.alloc() : memref<4x4xi8>")
+            self.emit(2, "%k8 = arith.constant 1 : i8")
         self.block(2, 0, idx, [], mems, top=True)
         hdr = ["builtin.module {", "  func.func private @ext(index, index) -> ()",
                "  func.func @f(%a0 : index" + (", %m0 : memref<?x?xi8>" if self.family == "reuse" else "") + ") {"]
@@ -395,8 +396,10 @@ class Gen:
             self.emit(ind, f"{v} = memref.load {buf}[{a}, {b}] : {bty}")
             self.tag += 1
             self.emit(ind, f'"test.op"({v}) {{tag = {self.tag} : i32}} : (i8) -> ()')
-            if rng.random() < 0.7:
-                self.emit(ind, f"memref.store {v}, {buf}[{a}, {b}] : {bty}")
+            if rng.random() < 0.8:
+                w = self.fresh("w")
+                self.emit(ind, f"{w} = arith.addi {v}, %k8 : i8")
+                self.emit(ind, f"memref.store {w}, {buf}[{a}, {b}] : {bty}")
             return
         if k == "chain2":
             # memref.dim (index 0 and 1) of a subview with TWO dynamic sizes of different value, feeding an
@@ -860,7 +863,7 @@ def env_lit(args_lit, family, env):
     a0, shp = env
     items = [f"(0%nat, VInt {zlit(a0)})"]
     if family == "reuse":
-        items.append(f"(1%nat, VMem {vlib.zlist(shp)})")
+        items.append(f"(1%nat, VMem 1001%Z {vlib.zlist(shp)})")
     return "(env_of " + coqlist(items) + ")"
 
 
@@ -989,7 +992,7 @@ def correspondence(ctx):
 
 
 L2_TEST = ("fun c : list var * list op * list op * list env => match c with (args, b, a, es) => "
-           "if negb (wf_prog args a) then 2%nat else if forallb (fun e => trace_eqb (trace b e) (trace a e)) es then 0%nat "
+           "if negb (wf_prog args a) then 2%nat else if forallb (fun e => trace_eqb (trace b e []) (trace a e [])) es then 0%nat "
            "else if prog_has_min_dim b then 3%nat else 1%nat end")
 
 
@@ -1017,7 +1020,7 @@ def show_traces(fam, r, env):
     args, b = r["before"]
     _, a = r["after"]
     e = env_lit(args, fam, env)
-    txt = HEADER + f"Eval vm_compute in (trace {b} {e}).\nEval vm_compute in (trace {a} {e}).\n"
+    txt = HEADER + f"Eval vm_compute in (trace {b} {e} []).\nEval vm_compute in (trace {a} {e} []).\n"
     ok, out = vlib.coq_eval("c17show", txt, timeout=300)
     return out[-3000:]
 
